@@ -1,5 +1,5 @@
 (* C04 - TCP request/response framing is lossless, exact and bounded.
-   Property theorems only; every proof is `exact <lemma>` from proof/C04_Framing.v.
+   Property theorems only; every proof is `exact <lemma>` from proof/C04_Framing.v, proof/C04_Dispatch.v, proof/C04_Fin.v.
 
    Vocabulary (lib/Reader.v): an io.Reader is a finite script of read events (chunks of any size,
    zero-length reads, reads that return an error, reads that return data and an error together).
@@ -9,7 +9,7 @@
    every split of the byte stream into reads and everything that may come later.
    [rs_ctr] carries what was asked of the reader: c_max = largest single Read request,
    c_alloc = bytes allocated with make() for peer-declared lengths. *)
-From Hy Require Import model.C04_Framing proof.C04_Framing.
+From Hy Require Import model.C04_Framing proof.C04_Framing model.C04_Dispatch proof.C04_Dispatch proof.C04_Fin.
 From Coq Require Import ZArith.
 Local Open Scope N_scope.
 
@@ -80,16 +80,119 @@ Theorem C04_response_peer_widths : forall status wm wp msg pad trailing post st,
 Proof. exact response_read_exact. Qed.
 Print Assumptions C04_response_peer_widths.
 
-(* The server's dispatcher consumes the two bytes of the frame type 0x401 and nothing else, so
-   ReadTCPRequest starts at the address length (any widths for the following fields). *)
-Theorem C04_server_consumes_only_type : forall wa wp addr pad trailing post st,
+(* The server consumes the frame type and nothing else, AT WHATEVER WIDTH THE PEER ENCODED IT (http3's
+   dispatcher identifies 0x401 with quicvarint.Peek at any legal width: 2, 4 or 8 bytes), so ReadTCPRequest
+   starts at the address length (any widths for the following fields). *)
+Theorem C04_server_consumes_only_type : forall wt wa wp addr pad trailing post st,
+  fits wt FrameTypeTCPRequest ->
+  fits wa (N.of_nat (length addr)) -> fits wp (N.of_nat (length pad)) ->
+  1 <= N.of_nat (length addr) <= MaxAddressLength ->
+  N.of_nat (length pad) <= MaxPaddingLength ->
+  delivers (rs_script st) (varint_enc_w wt FrameTypeTCPRequest ++ request_frame wa wp addr pad ++ trailing) post ->
+  exists st', server_read_request st = (Ok addr, st') /\ delivers (rs_script st') trailing post.
+Proof. exact server_read_exact_w. Qed.
+Print Assumptions C04_server_consumes_only_type.
+
+(* the canonical two-byte form 44 01 that WriteTCPRequest emits (the statement as it stood before the
+   generalisation over the width); 2, 4 and 8 are the widths that fit 0x401 *)
+Theorem C04_server_consumes_only_type_canonical : forall wa wp addr pad trailing post st,
   fits wa (N.of_nat (length addr)) -> fits wp (N.of_nat (length pad)) ->
   1 <= N.of_nat (length addr) <= MaxAddressLength ->
   N.of_nat (length pad) <= MaxPaddingLength ->
   delivers (rs_script st) ([x44; x01] ++ request_frame wa wp addr pad ++ trailing) post ->
   exists st', server_read_request st = (Ok addr, st') /\ delivers (rs_script st') trailing post.
 Proof. exact server_read_exact. Qed.
-Print Assumptions C04_server_consumes_only_type.
+Print Assumptions C04_server_consumes_only_type_canonical.
+
+Theorem C04_frame_type_widths :
+  (varint_enc_w 2 FrameTypeTCPRequest = [x44; x01] /\ fits 2 FrameTypeTCPRequest) /\
+  (fits 4 FrameTypeTCPRequest /\ fits 8 FrameTypeTCPRequest /\ ~ fits 1 FrameTypeTCPRequest).
+Proof. exact (conj frame_type_canonical frame_type_fits_wide). Qed.
+Print Assumptions C04_frame_type_widths.
+
+(* Dispatcher and hijacker agree on the bytes of the frame type: for a varint of any legal width at the
+   head of the stream, delivered in any chunking (partial data included), quicvarint.Peek reports its value
+   and leaves the stream untouched, and the hijacker's quicvarint.Read returns the same value and consumes
+   exactly those bytes - what follows the varint is what the next reader sees. *)
+Theorem C04_dispatcher_hijacker_agree : forall w v rest post st,
+  fits w v -> delivers (rs_script st) (varint_enc_w w v ++ rest) post ->
+  io_peek_varint st = (Ok v, st) /\
+  exists st', io_read_varint st = (Ok v, st') /\ delivers (rs_script st') rest post /\
+              c_alloc (rs_ctr st') = c_alloc (rs_ctr st).
+Proof. exact dispatcher_hijacker_agree. Qed.
+Print Assumptions C04_dispatcher_hijacker_agree.
+
+(* The real path end to end (model/C04_Dispatch.v: http3 dispatcher's Peek, ProxyStreamHijacker, ReadTCPRequest):
+   a request with the frame type on any fitting width, the lengths on any fitting widths, any chunking and any
+   trailing payload is decoded to exactly the address sent, and exactly the trailing payload is left: the
+   first payload byte is never swallowed. *)
+Theorem C04_dispatched_request_decoded : forall wt wa wp addr pad trailing post st,
+  fits wt FrameTypeTCPRequest ->
+  fits wa (N.of_nat (length addr)) -> fits wp (N.of_nat (length pad)) ->
+  1 <= N.of_nat (length addr) <= MaxAddressLength ->
+  N.of_nat (length pad) <= MaxPaddingLength ->
+  delivers (rs_script st) (varint_enc_w wt FrameTypeTCPRequest ++ request_frame wa wp addr pad ++ trailing) post ->
+  exists st', server_dispatch st = (Ok (Some addr), st') /\ delivers (rs_script st') trailing post.
+Proof. exact server_dispatch_exact. Qed.
+Print Assumptions C04_dispatched_request_decoded.
+
+(* An empty / over-limit address length behind a frame type of any width: protocol error (nothing is dialled),
+   the stream is left right behind the length field, only single-byte reads, nothing allocated. *)
+Theorem C04_dispatched_reject_before_read : forall wt w v rest post st,
+  fits wt FrameTypeTCPRequest -> fits w v -> (v = 0 \/ MaxAddressLength < v) ->
+  delivers (rs_script st) (varint_enc_w wt FrameTypeTCPRequest ++ varint_enc_w w v ++ rest) post ->
+  exists st', server_dispatch st = (Err EInvalid, st') /\ delivers (rs_script st') rest post /\
+              c_max (rs_ctr st') <= N.max (c_max (rs_ctr st)) 1 /\ c_alloc (rs_ctr st') = c_alloc (rs_ctr st).
+Proof. exact server_dispatch_reject_addr. Qed.
+Print Assumptions C04_dispatched_reject_before_read.
+
+(* Any other frame type: the stream is not hijacked and not one byte of it is consumed. *)
+Theorem C04_dispatch_other_frame_untouched : forall w v rest post st,
+  fits w v -> v <> FrameTypeTCPRequest ->
+  delivers (rs_script st) (varint_enc_w w v ++ rest) post ->
+  server_dispatch st = (Ok None, st).
+Proof. exact server_dispatch_other. Qed.
+Print Assumptions C04_dispatch_other_frame_untouched.
+
+(* FIN coalesced with the final bytes.  For EVERY script pre (errors and all) and every bs: whether the last
+   event hands out bs together with io.EOF (n > 0, io.EOF in one Read, as a QUIC stream does when the STREAM
+   frame with the end of the data carries FIN) or hands out bs and the NEXT Read reports io.EOF makes no
+   difference to what the three readers return nor to the data they leave unread.  (The Read counters differ
+   - one more call may be made - and are not claimed.)  Together with the theorems above, which cover the
+   second form, every complete frame is read back when the stream ends right behind it. *)
+Theorem C04_final_eof_coalesced : forall pre bs,
+  (fst (run_on read_tcp_request (pre ++ [Ev bs (Some EEof)])) = fst (run_on read_tcp_request (pre ++ [Ev bs None])) /\
+   sdata (rs_script (snd (run_on read_tcp_request (pre ++ [Ev bs (Some EEof)])))) =
+   sdata (rs_script (snd (run_on read_tcp_request (pre ++ [Ev bs None]))))) /\
+  (fst (run_on read_tcp_response (pre ++ [Ev bs (Some EEof)])) = fst (run_on read_tcp_response (pre ++ [Ev bs None])) /\
+   sdata (rs_script (snd (run_on read_tcp_response (pre ++ [Ev bs (Some EEof)])))) =
+   sdata (rs_script (snd (run_on read_tcp_response (pre ++ [Ev bs None]))))) /\
+  (fst (run_on server_read_request (pre ++ [Ev bs (Some EEof)])) = fst (run_on server_read_request (pre ++ [Ev bs None])) /\
+   sdata (rs_script (snd (run_on server_read_request (pre ++ [Ev bs (Some EEof)])))) =
+   sdata (rs_script (snd (run_on server_read_request (pre ++ [Ev bs None]))))).
+Proof. exact final_eof_coalesced. Qed.
+Print Assumptions C04_final_eof_coalesced.
+
+(* The round trip when the peer closes its send side right behind what it wrote: the script is the written
+   frame and a trailing payload (possibly empty: FIN right behind the frame) cut into reads in an arbitrary
+   way, the LAST read reporting io.EOF together with its bytes. *)
+Theorem C04_roundtrip_fin_coalesced :
+  (forall addr pad frame trailing pre bs,
+     1 <= N.of_nat (length addr) <= MaxAddressLength ->
+     drawable tcpRequestPaddingMin tcpRequestPaddingMax pad ->
+     write_tcp_request addr pad = Ok frame ->
+     clean pre -> sdata pre ++ bs = frame ++ trailing ->
+     fst (run_on server_read_request (pre ++ [Ev bs (Some EEof)])) = Ok addr /\
+     sdata (rs_script (snd (run_on server_read_request (pre ++ [Ev bs (Some EEof)])))) = trailing) /\
+  (forall ok msg pad frame trailing pre bs,
+     N.of_nat (length msg) <= MaxMessageLength ->
+     drawable tcpResponsePaddingMin tcpResponsePaddingMax pad ->
+     write_tcp_response ok msg pad = Ok frame ->
+     clean pre -> sdata pre ++ bs = frame ++ trailing ->
+     fst (run_on read_tcp_response (pre ++ [Ev bs (Some EEof)])) = Ok (ok, msg) /\
+     sdata (rs_script (snd (run_on read_tcp_response (pre ++ [Ev bs (Some EEof)])))) = trailing).
+Proof. exact roundtrip_fin. Qed.
+Print Assumptions C04_roundtrip_fin_coalesced.
 
 (* Rejection before the declared amount is read or allocated.
    Address length 0 or above the limit, in any width: protocol error; the stream is left exactly after
